@@ -198,15 +198,15 @@ _MODE = {"01": 1, "02": 2, "03": 3, "04": 4, "05": 5}
 
 def _result_fields(op: str, res, a: dict) -> dict:
     if op == "get_state":
-        return {"state": enums.state(res.state), "watts": res.power_consumption,
+        return {"state": enums.state(res.state), "watts": enums.integer(res.power_consumption),
                 "amps10": int(round(res.electric_current * 10)), "left": text(res.time_left), "on": text(res.time_on),
                 "auto": text(res.auto_shutdown)}
     if op == "get_breeze_state":
-        return {"state": enums.state(res.state), "mode": enums.mode(res.mode), "target": res.target_temperature,
+        return {"state": enums.state(res.state), "mode": enums.mode(res.mode), "target": enums.integer(res.target_temperature),
                 "fan": enums.fan(res.fan_level), "swing": enums.swing(res.swing), "temp10": int(round(res.temperature * 10)),
                 "remote": text(res.remote_id)}
     if op == "get_shutter_state":
-        return {"position": res.position, "direction": enums.direction(res.direction)}
+        return {"position": enums.integer(res.position), "direction": enums.direction(res.direction)}
     if op == "get_schedules":
         out = _sched_fields(res, a)
         for sch in res.schedules:          # what a caller does with its own result must not leak into later listings
